@@ -17,16 +17,19 @@ def corpus_items(tier, seed, bool_only=False, uncompute_opts=(True, False)):
     orand = corpus.u_bool_or_of_ands()
     prand = corpus.u_prog_random(300)
     repo = [p for p in corpus.u_repo_frozen() if corpus.size_ok(p[1], max_bits=16, max_nodes=60)]
+    isb = lambda s: "-> bool:" in s
     if bool_only:
-        isb = lambda s: "-> bool:" in s
         unit = [p for p in unit if isb(p[1])]
         ctl = [p for p in ctl if isb(p[1])]
         repo = [p for p in repo if isb(p[1])]
         multi = [p for p in multi if isb(p[1])]
         prand = [p for p in prand if isb(p[1])]
     stale = [] if bool_only else corpus.u_stale(full=True)
-    core = small[:60] + ctl + unit[:: max(1, len(unit) // 60)][:60] + stale[::8]
-    rest = small[60:] + rnd + multi + unit + repo + orand[::7] + prand + stale
+    selfif = corpus.u_selfif(full=True)
+    if bool_only:
+        selfif = [p for p in selfif if isb(p[1])]
+    core = small[:60] + ctl + unit[:: max(1, len(unit) // 60)][:60] + stale[::8] + selfif[4::12]
+    rest = small[60:] + rnd + multi + unit + repo + orand[::7] + prand + stale + selfif
     specs = []
     seen = set()
 
@@ -149,7 +152,8 @@ def check(spec, mode):
         if mode == "C06":
             rq = qc.qubit_map["_ret"]
             if rq < n_in:
-                res.update(status="skip", note="_ret lives on an input qubit")
+                # there is no output qubit to flip: the oracle cannot be |x>|y> -> |x>|y ^ f(x)>
+                res["findings"].append({"kind": "ret-on-input", "what": "_ret is mapped onto the argument qubit %d (%s): the circuit has no separate output qubit" % (rq, qc.get_key_by_index(rq) if hasattr(qc, "get_key_by_index") else rq), "cex": {}, "replayed": True})
                 return st.into(res)
             dirty.append(z3.Xor(fin[rq], z3.Xor(init[rq], env["_ret"])))
             names.append(("ret", rq))
